@@ -8,12 +8,13 @@
    * the regex engine (Envoy safe_regex / RE2) is a Section variable [re] for the patterns the
      USER supplies (PathRegex, header Regex) and for the method alternation "GET|POST";
    * the SPIFFE patterns the CODE builds are kept structured ([idpat]: host + path segments,
-     a segment is text spliced in unescaped or the literal [^/]+) and rendered to the very
-     regex string the Go code emits ([render_id], compared with the implementation on every
-     run).  Their meaning is given segment-wise by [raw_match]: in spliced text a '.' matches
-     any character and every other character matches itself (RE2 on texts over letters,
-     digits, '-', '_' and '.'; makeSpiffePattern does not escape).  Where the Go code is wrong
-     (web.v1 matches webxv1) the model is wrong the same way. *)
+     a segment is regex text spliced in or the literal [^/]+) and rendered to the very regex
+     string the Go code emits ([render_id], compared with the implementation on every run).
+     Their meaning is given segment-wise by [raw_match], a reader of the regex fragment that
+     occurs: a backslash makes the next character literal, an unescaped '.' matches any
+     character, every other character matches itself.  Since /repo d976793 makeSpiffePattern
+     passes the exact namespace and service name through regexp.QuoteMeta ([quote_meta]);
+     trust domain and partition are still spliced as they are. *)
 From Verif Require Import Base.Prelude.
 Local Open Scope string_scope.
 Local Open Scope bool_scope.
@@ -70,12 +71,33 @@ Fixpoint sconcat (l : list string) : string :=
   | x :: r => x ++ sconcat r
   end.
 
-(* spliced, unescaped text [p] as a regex, against [s]: '.' matches any one character. *)
-Fixpoint raw_match (p s : string) : bool :=
-  match p, s with
-  | EmptyString, EmptyString => true
-  | String a p', String b s' => (Ascii.eqb a "." || Ascii.eqb a b) && raw_match p' s'
-  | _, _ => false
+(* regex text [p] (literals, '.', backslash escapes) against [s] *)
+Definition bslash : ascii := "092"%char.
+
+Fixpoint raw_match (p s : string) {struct p} : bool :=
+  match p with
+  | EmptyString => match s with EmptyString => true | _ => false end
+  | String a p' =>
+      match s with
+      | EmptyString => false
+      | String b s' =>
+          if Ascii.eqb a bslash
+          then match p' with
+               | String c p'' => Ascii.eqb c b && raw_match p'' s'
+               | EmptyString => Ascii.eqb a b && raw_match p' s'     (* lone trailing backslash *)
+               end
+          else (Ascii.eqb a "." || Ascii.eqb a b) && raw_match p' s'
+      end
+  end.
+
+(* regexp.QuoteMeta: a backslash before each of \.+*?()|[]{}^$ *)
+Definition special_chars : list ascii :=
+  [bslash; "."; "+"; "*"; "?"; "("; ")"; "|"; "["; "]"; "{"; "}"; "^"; "$"]%char.
+Definition is_special (c : ascii) : bool := existsb (Ascii.eqb c) special_chars.
+Fixpoint quote_meta (s : string) : string :=
+  match s with
+  | EmptyString => EmptyString
+  | String c s' => if is_special c then String bslash (String c (quote_meta s')) else String c (quote_meta s')
   end.
 
 (* ------------------------------------------------------------------ generic list helpers *)
@@ -337,8 +359,8 @@ Fixpoint mark_sources (dflt : action) (l : list rixn) : list rixn :=
 
 (* makeSpiffePattern (connect.SpiffeIDService.URI: host + uriPath) *)
 Definition spiffe_pat (src : rsvc) : idpat :=
-  let ns := if s_ns src =? wild then SAny else SText (s_ns src) in
-  let svc := if s_name src =? wild then SAny else SText (s_name src) in
+  let ns := if s_ns src =? wild then SAny else SText (quote_meta (s_ns src)) in
+  let svc := if s_name src =? wild then SAny else SText (quote_meta (s_name src)) in
   let ap := if s_peer src =? "" then s_ap src else s_exp_ap src in
   let apl := to_lower (or_default ap) in          (* SpiffeIDService.PartitionOrDefault *)
   let path := [SText "ns"; ns; SText "dc"; SAny; SText "svc"; svc] in
